@@ -27,6 +27,9 @@ type Engine struct {
 	freshMemo    map[string]bool
 	standaloneMemo map[string]bool
 	globals      map[*ssa.Global]*globalInfo
+	// init-only field analysis (initonly.go)
+	mutableFields map[fieldKey]bool
+	scannedPkgs   map[*types.Package]bool
 	CheckOverflow bool
 
 	getterIfacesDone bool
